@@ -70,10 +70,57 @@ def make_retorts():
     return get
 
 
+@dataclasses.dataclass
+class Animal:
+    name: str
+
+
+@dataclasses.dataclass
+class Dog(Animal):
+    breed: str = "b"
+
+
+@dataclasses.dataclass
+class Pet(Animal):
+    owner: str = "o"
+
+
+@dataclasses.dataclass
+class PetDog(Pet, Dog):
+    pass
+
+
+@dataclasses.dataclass
+class CSrc:
+    a: int
+    b: int
+
+
+@dataclasses.dataclass
+class CDst:
+    a: int
+    b: int
+
+
 def behaviour(retort, rid: str) -> Any:
     """the observable response to a request: behaviour vector of the produced loader and dumper"""
     from adaptix import ProviderNotFoundError
     from adaptix.load_error import LoadError
+    if rid in ("DumpPet", "DumpPetDog"):
+        obj = Pet("p") if rid == "DumpPet" else PetDog("pd")
+        try:
+            return ("dump", repr(retort.dump(obj, Union[Animal, Dog])))
+        except Exception as e:  # noqa: BLE001
+            return ("dexc", type(e).__name__)
+    if rid in ("ConvPlain", "ConvRecipe"):
+        from adaptix import P
+        from adaptix.conversion import ConversionRetort, link_constant
+        conv_retort = retort.__dict__.setdefault("_vf_conv", ConversionRetort()) if hasattr(retort, "__dict__") else ConversionRetort()
+        recipe = [link_constant(P[CDst].b, value=99)] if rid == "ConvRecipe" else []
+        try:
+            return ("conv", repr(conv_retort.get_converter(CSrc, CDst, recipe=recipe)(CSrc(1, 2))))
+        except Exception as e:  # noqa: BLE001
+            return ("cexc", type(e).__name__)
     tp = TYPES[rid]
     try:
         loader = retort.get_loader(tp)
